@@ -39,12 +39,14 @@ theorem TMono.run (T : Target) (now : Nat) : TMono T (T.run now) := by
   · exact TMono.refl T
   split
   · exact TMono.endLoop T _ now
-  · dsimp only
-    have h0 : TMono T { T with handled := T.handled ++ T.mbox.map (fun m => (m.1, m.2, now)), mbox := [] } :=
-      ⟨id, id, id, id⟩
-    split
-    · exact h0.trans (TMono.endLoop _ _ now)
-    · exact h0
+  · split
+    · exact (⟨id, id, id, id⟩ : TMono T { T with handled := _, mbox := [] }).trans (TMono.exitWith _ _ now)
+    · dsimp only
+      have h0 : TMono T { T with handled := T.handled ++ T.mbox.map (fun m => (m.1, m.2, now)), mbox := [] } :=
+        ⟨id, id, id, id⟩
+      split
+      · exact h0.trans (TMono.endLoop _ _ now)
+      · exact h0
 
 theorem TMono.stop (T : Target) (r : Reason) : TMono T (T.stop r) := by
   unfold Target.stop
@@ -98,6 +100,12 @@ theorem run_settled (T : Target) (now : Nat) (hsc : T.stopping ≠ none → T.cl
           have := endLoop_settled T r now hk
           exact ⟨this.1, fun _ => this.2⟩
         | none =>
+          simp only
+          cases hpo : T.poison with
+          | some n =>
+            simp only
+            exact ⟨fun _ => by simp [Target.exitWith], fun _ => .inr (by simp [Target.exitWith])⟩
+          | none =>
           simp only
           by_cases h4 : T.draining = true
           · simp only [h4, ↓reduceIte]
@@ -252,6 +260,13 @@ theorem AInv.step {s : State} (h : AInv s) (op : Op) : AInv (Timers.step s op) :
   | mark => exact @AInv.of_mono s _ h (TMono.refl _) same
   | dropHandle i => exact @AInv.of_mono s _ h (TMono.refl _) same
   | hold => exact @AInv.of_mono s _ h ⟨id, id, id, id⟩ same
+  | fail =>
+    refine @AInv.of_mono s _ h ?_ same
+    show TMono s.target s.target.poisonMsg
+    unfold Target.poisonMsg
+    split
+    · exact ⟨id, id, id, id⟩
+    · exact TMono.refl _
   | abort i =>
     cases hτ : s.timers[i]? with
     | none => rw [step_abort_none hτ]; exact h
@@ -341,6 +356,8 @@ theorem expand_tail (s : State) (m : MOp) :
   | kill => exact .inl ⟨[.kill], rfl⟩
   | drain => exact .inl ⟨[.drain], rfl⟩
   | psrelease => exact .inl ⟨[.psrelease], rfl⟩
+  | fail => exact .inl ⟨[.fail], rfl⟩
+  | advFail d => exact .inl ⟨[.tick d, .fail, .target] ++ fireAll s.timers.length, by simp [expand]⟩
   | hold => exact .inr ⟨.hold, rfl, rfl, rfl, rfl, rfl⟩
   | dropHandle i => exact .inr ⟨.dropHandle i, rfl, rfl, rfl, rfl, rfl⟩
   | abort i =>
